@@ -683,17 +683,31 @@ def _case_legacy(c, V):
 
 
 # ---------------------------------------------------------------------------------------------
-def run_case(c):
-    from mc import env
-    env.tidalpy()
+def _attempt(c):
     V = Viol()
     fam = c.get('model') or c.get('fn') or 'find_rheology'
+    raised = None
     try:
         r = dict(law=_case_law, legarr=_case_legarr, alias=_case_alias, threads=_case_threads, legacy=_case_legacy)[c['kind']](c, V)
     except CodeRaised as e:
+        raised = e
         V.add(f'C07/{fam}/exception/{e.args[0]}', msg=e.args[1])
         r = dict(obs=None)
-    return dict(status='pass', viol=V.list(), obs=r.get('obs'), counts=r.get('counts'))
+    return dict(status='pass', viol=V.list(), obs=r.get('obs'), counts=r.get('counts')), raised
+
+
+def run_case(c):
+    from mc import env
+    env.tidalpy()
+    r, raised = _attempt(c)
+    if raised is not None:
+        # an exception of the code under test must be deterministic to count (numba compilation of the legacy functions
+        # by 16 concurrent workers has been seen to fail transiently); a deterministic defect raises again
+        r2, raised2 = _attempt(c)
+        if raised2 is None:
+            r2['info'] = [f'transient exception on first attempt, absent on retry: {raised.args[0]}: {raised.args[1]}']
+            return r2
+    return r
 
 
 def replay(case):
@@ -726,6 +740,9 @@ def run(ctx):
     kinds = {}
     for c in cs:
         kinds[c['kind']] = kinds.get(c['kind'], 0) + 1
+    for r in res:
+        for m in r.get('info') or []:
+            ctx.note(m)
     ctx.coverage['cases_by_kind'] = kinds
     ctx.coverage['scalar_evaluations'] = nscalar
     ctx.coverage['lattice'] = dict(models=list(MODELS), frequencies=nw, rigidities=len(g['mu']),
